@@ -318,6 +318,14 @@ class BufEngine:
         pv0 = self.val(c0_, st) if c0_ is not None and c0_.get('kind') == 'DeclRefExpr' else None
         if is_ptr(pv0) and isinstance(pv0[1], tuple) and pv0[1][0] == 'local':
             return [(1 if neg0 else 0, st.copy())]
+        # the condition is the boolean result of an inlined helper (`end()`, `!fitsInBuffer(...)`): its returned relation
+        cv0 = st.callvals.get(c0_.get('id')) if c0_ is not None else None
+        if rel is None and isinstance(cv0, tuple) and cv0 and cv0[0] == 'rel':
+            r0 = list(cv0[1])
+            if not neg0:
+                rel = r0
+            elif len(r0) == 1:
+                rel = [negate(r0[0])]
 
         def feasible(s_):
             for p_, op_ in s_.cons:
@@ -1092,6 +1100,12 @@ def check_transfer_fn(ctx, tu, f, mode):
                 good = False
             else:
                 v, d, con = implies_le(st.cons, -need0 + 1)
+                if v is None and not st.opaque and not st.wrap:
+                    # several conditions together may still imply the overflow (e.g. `size > 0 && end()`)
+                    lb0 = lower_bound(need0, list(st.inv) + [p_ for p_, op_ in st.cons if op_ == '<='] +
+                                      [q_ for p_, op_ in st.cons if op_ == '==' for q_ in (p_, -p_)], 2 ** 64 - 1)
+                    if lb0 is not None and lb0 >= 1:
+                        v = 'exact'
                 wit = None
                 if v is None and not st.opaque and not st.wrap:
                     # the path condition is fully modelled: is there a request that fits and still takes this path?
@@ -1153,9 +1167,22 @@ def check_transfer_fn(ctx, tu, f, mode):
                               % ([show(e[2]) for e in rs] or 'no resize'), tu.fn_loc(f), key='%s|%s|grow' % (R1, keybase),
                               path=path_text(tu, g, st))
                 good = False
+        def is_local(p_):
+            return is_ptr(p_) and isinstance(p_[1], tuple) and p_[1][0] == 'local'
+
+        staged_hops = [e for e in mems if not (is_ptr(e[1]) and e[1][1] == 'buf') and not (is_ptr(e[2]) and e[2][1] == 'buf')
+                       and (is_local(e[1]) or is_local(e[2]))]
+        mems = [e for e in mems if e not in staged_hops]
         for e in mems:
             _, dst, src, ln, nid, gen, bsz = e
             bside, oside = (src, dst) if mode == 'read' else (dst, src)
+            if is_local(oside):
+                # the bytes pass through a local object: the other hop must move the same number of bytes between that
+                # local and the user's pointer
+                hop = [h for h in staged_hops if (is_local(h[2]) and h[2][1] == oside[1] and mode == 'read') or
+                       (is_local(h[1]) and h[1][1] == oside[1] and mode != 'read')]
+                if len(hop) == 1 and hop[0][3] == ln:
+                    oside = hop[0][1] if mode == 'read' else hop[0][2]
             if not (is_ptr(bside) and bside[1] == 'buf'):
                 if is_ptr(oside) and oside[1] == 'buf':
                     ctx.violation(R1, label, 'memcpy copies in the wrong direction (%s)' %
